@@ -19,6 +19,15 @@ Three case families, all on REAL records in a temporary directory (runner shared
   and hand-made malformed heads; `IH5UserBlock.load` vs. `UBlock.loadText` (the text handed to
   `json.loads`, or the error class).  ORACLE: what `save` accepted loads again, equal.
 
+Record names: the mode table and the fixed chains run on foo next to fo / foo2 / foo-bar; a second mode table, half
+of the random histories, half of the long chains and half of the find listings run on GENERATED names — drawn from
+the whole legal alphabet, with beginnings / endings made of what file names consist of besides the record name
+(characters and fragments of `.ih5`, `.p<n>`, `mf.json`: i h 5 p ih5 p1 p10 -p1 digits '-') — next to
+prefix-related neighbours of those names (`gen_family`).  Long chains: records with 10..12 patches (file names
+`<name>.p10.ih5`..: two-digit patch numbers) in every mode on the patched record, `w` on the uncommitted patch,
+after `delete_files`, and as reopen histories (close + reopen; `w` + write + close + reopen; delete_files + create
++ write + close + reopen).  A handle opened by the record's name is judged as the record whatever files it found.
+
 Writes of the histories are datasets, groups, root attributes or attributes of an existing child
 (`["write", k, kind]`); record classes are IH5Record / IH5MFRecord and subclasses of both that
 store extra content in the documented `ub_exts` section of the user block on commit (`p+<n>` /
@@ -76,11 +85,93 @@ SITS = ["absent", "ubase", "cbase", "patched", "upatch"]
 OTHERS = c02.OTHERS
 
 
+# ----------------------------------------------------------------------------- names
+# the legal record-name alphabet (`_ALLOWED_NAME_CHARS`)
+NAME_CHARS = "abcdefghijklmnopqrstuvwxyzABCDEFGHIJKLMNOPQRSTUVWXYZ0123456789-"
+# what file names are made of besides the record name: characters and fragments of the file extension, of the
+# patch infix, of patch numbers and of the sidecar suffix — all of them legal inside a record name
+EDGE = ["i", "h", "5", "p", "ih5", "h5", "p1", "p2", "p10", "-p1", "-ih5", "pih5", "-", "0", "1", "9", "10", "12",
+        "I", "H", "P", "IH5", "mf", "json", "ih5mf"]
+VALID_NAME = re.compile(r"^[A-Za-z0-9\-]+$")
+
+
+def gen_name(rng):
+    """a legal record name: drawn from the whole alphabet, mostly with an adversarial beginning and / or ending"""
+    body = "".join(rng.choice(NAME_CHARS) for _ in range(rng.randrange(0, 6)))
+    r = rng.random()
+    if r < 0.45:
+        name = body + rng.choice(EDGE)
+    elif r < 0.6:
+        name = rng.choice(EDGE) + body
+    elif r < 0.78:
+        name = rng.choice(EDGE) + body + rng.choice(EDGE)
+    elif r < 0.9:
+        name = rng.choice(EDGE)  # the name is such a fragment
+    else:
+        name = body or rng.choice(NAME_CHARS)
+    return name[:12]
+
+
+# the names the history generator of c02.py uses: the record, its prefix-related neighbours, merge targets
+FAMILY_KEYS = ["foo"] + list(c02.OTHERS) + ["bar", "foo3", "fo-o", "ba"]
+
+
+def gen_family(rng):
+    """a record name N with prefix-related neighbours shaped like foo / fo, foo2, foo-bar (+ the merge targets
+    bar, foo3, fo-o, ba of the history generator): a mapping from those names to the generated ones"""
+    while True:
+        n = gen_name(rng)
+        t = gen_name(rng)
+        short = n[:-1] if len(n) > 1 else n + rng.choice(EDGE)
+        fam = {"foo": n, "fo": short, "foo2": n + rng.choice(["2", "5", "0", "i", "h", "p", "p1", "ih5", "P"]),
+               "foo-bar": n + "-" + rng.choice(["bar", "p1", "ih5", "5", "", "p"]),
+               "bar": t, "foo3": n + rng.choice(["3", "p2", "h5", "-3"]), "fo-o": short + "-" + rng.choice("o5hip"),
+               "ba": t[:-1] if len(t) > 1 else t + "a"}
+        vals = list(fam.values())
+        if len(set(vals)) == len(vals) and all(VALID_NAME.match(v) and len(v) <= 16 for v in vals) and "nope" not in vals:
+            return fam
+
+
+def rename_ops(ops, mp):
+    """the same history on other record names (`mp`: name -> name, injective); file names follow their record"""
+    def ren(s):
+        i = s.find(".")
+        stem, rest = (s, "") if i < 0 else (s[:i], s[i:])
+        return mp.get(stem, stem) + rest
+    out = []
+    for o in ops:
+        o = list(o)
+        if o[0] == "open":
+            o[4] = ren(o[4]) if o[3] == "n" else [ren(a) for a in o[4]]
+            kw = c02.open_kw(o)
+            if kw.get("mf"):
+                o[-1] = dict(kw, mf=ren(kw["mf"]))
+        elif o[0] in ("merge", "delete"):
+            o[1] = ren(o[1])
+        out.append(o)
+    return out
+
+
+def name_tags(name):
+    tags = []
+    if name != "foo":
+        tags.append("generated-name")
+        if name[-1] in "ih5p":
+            tags.append("name-ends-in-extension-char")
+        if name[-1].isdigit():
+            tags.append("name-ends-in-digit")
+        if name[0] in "ih5p-" or name[0].isdigit():
+            tags.append("name-starts-with-extension-char-or-digit")
+        if any(x in name for x in ("ih5", "p1", "p2", "p10")):
+            tags.append("name-contains-file-name-fragment")
+    return tags
+
+
 # ----------------------------------------------------------------------------- case builders
-def others_setup(c, k0=1000):
+def others_setup(c, k0=1000, others=None):
     ops = []
     k = k0
-    for n in OTHERS:
+    for n in (OTHERS if others is None else others):
         ops += [["open", c, "x", "n", n], ["write", k], ["commit"], ["create"], ["write", k + 1], ["close", 1]]
         k += 2
     return ops
@@ -89,8 +180,9 @@ def others_setup(c, k0=1000):
 W = c02.write_op
 
 
-def situation_ops(c, sit, name="foo", wk="d"):
-    """`wk`: what the patches contain (dataset / group / root attribute / attribute of a child)"""
+def situation_ops(c, sit, name="foo", wk="d", npatch=1):
+    """`wk`: what the patches contain (dataset / group / root attribute / attribute of a child); `npatch`: number of
+    committed patches of the situations patched / upatch / deleted (patch indices >= 10 need npatch >= 10)"""
     if sit == "absent":
         return []
     ops = [["open", c, "x", "n", name], ["write", 1]]
@@ -99,10 +191,13 @@ def situation_ops(c, sit, name="foo", wk="d"):
     ops += [["commit"]]
     if sit == "cbase":
         return ops + [["close", 1]]
-    ops += [["create"], W(2, wk), ["commit"]]
+    for k in range(2, npatch + 2):
+        ops += [["create"], W(k, wk), ["commit"]]
     if sit == "patched":
         return ops + [["close", 1]]
-    return ops + [["create"], W(3, wk), ["close", 0]]
+    if sit == "deleted":  # a patched record removed again with `delete_files`: absent
+        return ops + [["close", 1], ["delete", name]]
+    return ops + [["create"], W(npatch + 2, wk), ["close", 0]]
 
 
 def follow_ops(wk="d"):
@@ -112,11 +207,30 @@ def follow_ops(wk="d"):
 FOLLOW = follow_ops()
 
 
-def mode_case(c, oc, sit, mode, by="n", wk="d"):
-    pre = others_setup(oc) + situation_ops(c, sit, wk=wk)
-    probe = ["open", c, mode, "n", "foo", "probe"]
-    post = follow_ops(wk) + [["open", c, "r", "n", "foo"], ["read"], ["close", 1]]
-    return dict(kind="mode", cls=c, ocls=oc, sit=sit, mode=mode, wk=wk, ops=pre + [probe] + post, probe=len(pre))
+def mode_case(c, oc, sit, mode, by="n", wk="d", name="foo", others=None, npatch=1, wc=None):
+    """`c` probes; `oc` wrote the other records, `wc` (default `c`) the record itself"""
+    wc = wc or c
+    pre = others_setup(oc, others=others) + situation_ops(wc, sit, name=name, wk=wk, npatch=npatch)
+    probe = ["open", c, mode, "n", name, "probe"]
+    post = follow_ops(wk) + [["open", c, "r", "n", name], ["read"], ["close", 1]]
+    case = dict(kind="mode", cls=c, ocls=oc, sit=sit, mode=mode, wk=wk, ops=pre + [probe] + post, probe=len(pre))
+    if wc != c:
+        case["wcls"] = wc
+    if name != "foo":
+        case["name"] = name
+    if others is not None:
+        case["others"] = list(others)
+    if npatch != 1:
+        case["npatch"] = npatch
+    return case
+
+
+def mode_rebuild(case, **kw):
+    """the mode case with some parameters replaced"""
+    p = dict(c=case["cls"], oc=case["ocls"], sit=case["sit"], mode=case["mode"], wk=case.get("wk", "d"), name=case.get("name", "foo"),
+             others=case.get("others"), npatch=case.get("npatch", 1), wc=case.get("wcls"))
+    p.update(kw)
+    return mode_case(**p)
 
 
 def reopen_case(rng, history, c, name, commit, nfiles_guess, perms=None):
@@ -153,22 +267,26 @@ def mode_oracle(case, recs):
     i = case["probe"]
     r = recs[i]
     sit, mode = case["sit"], case["mode"]
+    name = case.get("name", "foo")
+    npatch = case.get("npatch", 1)
+    base = name + ".ih5"
+    ops = case["ops"]
     b, a = r["before"], r["after"]
     new = sorted(set(a) - set(b))
     gone = sorted(set(b) - set(a))
     chg = r["chg"]
-    mine_before = sorted(f for f in b if belongs_to(f, "foo"))
+    mine_before = sorted(f for f in b if belongs_to(f, name))
 
     def hit(kind, **kw):
-        hits.append(dict(kind=kind, sit=sit, mode=mode, cls=case["cls"], **kw))
+        hits.append(dict(kind=kind, sit=sit, mode=mode, cls=case["cls"], name=name, **kw))
 
-    # files of the other (prefix-related) records are never touched by anything done to foo
+    # files of the other (prefix-related) records are never touched by anything done to the record
     for j in range(i, len(recs)):
         rb, ra = recs[j]["before"], recs[j]["after"]
         for f in rb:
-            if not belongs_to(f, "foo") and (f not in ra or ra[f][0] != rb[f][0]):
+            if not belongs_to(f, name) and (f not in ra or ra[f][0] != rb[f][0]):
                 hit("other-record-touched", file=f, step=j - i)
-    exists = sit != "absent"
+    exists = sit not in ("absent", "deleted")
     expect = "ok"
     if not exists and mode in ("r", "r+"):
         expect = "FileNotFoundError"
@@ -184,6 +302,10 @@ def mode_oracle(case, recs):
     writable = "rw=1" in r["h"]
     files = r.get("files") or []
     committed_before = sorted(f for f in mine_before if b[f][1] == "c")
+    if exists and mode in ("r", "r+", "a") and i >= 2 and ops[i - 1][0] == "close" and recs[i - 1]["out"] == "ok" \
+            and recs[i - 2].get("full") is not None and r.get("full") != recs[i - 2]["full"]:
+        # after close(), reopening the record by name shows the identical tree
+        hit("reopen-different-view", how="name", before=recs[i - 2]["full"], after=r.get("full"))
     if mode == "r":
         if new or gone or chg:
             hit("r-open-changed-files", new=new, gone=gone, chg=chg)
@@ -213,29 +335,39 @@ def mode_oracle(case, recs):
             elif sorted(files) != sorted([f for f in mine_before if f.endswith(".ih5")] + new):
                 hit("new-patch-wrong-file-set", files=files, new=new)
     elif not exists:  # a / w / w- / x on an absent record: create it
-        if new != ["foo.ih5"] or gone or chg:
+        if new != [base] or gone or chg:
             hit("create-when-absent", new=new, gone=gone, chg=chg)
         if not writable or r["view"] != "":
             hit("created-record-state", h=r["h"], view=r["view"])
     elif mode == "w":
-        left = sorted(f for f in a if belongs_to(f, "foo") and f.endswith(".ih5"))
-        if left != ["foo.ih5"] or files != ["foo.ih5"]:
+        left = sorted(f for f in a if belongs_to(f, name) and f.endswith(".ih5"))
+        if left != [base] or files != [base]:
             hit("w-did-not-replace", left=left, files=files)
         if r["view"] != "" or not writable:
             hit("w-record-not-fresh", view=r["view"], h=r["h"])
-        if "foo.ih5" in b and a["foo.ih5"][0] == b["foo.ih5"][0]:
+        if base in b and a[base][0] == b[base][0]:
             hit("w-kept-old-base")
     # discard_patch returns the view to the last commit
     if mode in ("r+", "a") and sit in ("cbase", "patched", "upatch"):
         wk = case.get("wk", "d")
-        want = c02.expected_dump([(1, "d")] if sit == "cbase" else [(1, "d"), (2, wk)])
+        want = c02.expected_dump([(1, "d")] if sit == "cbase" else [(1, "d")] + [(k, wk) for k in range(2, npatch + 2)])
         rd = recs[i + 1 + 4]
         if rd["out"] != "ok":
             hit("discard-refused", got=rd["out"])
         elif rd.get("full") != want:
             hit("discard-not-last-commit", got=rd.get("full"), want=want)
-        elif sorted(set(rd["after"])) != sorted(set(b) - ({"foo.p2.ih5"} if sit == "upatch" else set())):
+        elif sorted(set(rd["after"])) != sorted(set(b) - ({"%s.p%d.ih5" % (name, npatch + 1)} if sit == "upatch" else set())):
             hit("discard-removed-wrong-file", before=sorted(b), after=sorted(rd["after"]))
+    # the record as the handle left it (replaced, created, continued, patched): after close(), reopening it by
+    # name shows the identical tree
+    jc = i + len(FOLLOW)  # the close of the follow-up calls; then open r by name, read, close
+    if len(recs) > jc + 1 and ops[jc][0] == "close" and ops[jc + 1][0] == "open" and recs[jc]["out"] == "ok" \
+            and recs[jc - 1].get("full") is not None:
+        ro = recs[jc + 1]
+        if ro["out"] != "ok":
+            hit("reopen-failed", how="name", after="close of the handle opened with " + mode, got=ro["out"])
+        elif ro.get("full") != recs[jc - 1]["full"]:
+            hit("reopen-different-view", how="name", after="close of the handle opened with " + mode, before=recs[jc - 1]["full"], after_reopen=ro.get("full"))
     return hits
 
 
@@ -253,6 +385,10 @@ def reopen_oracle(case, recs):
     name = case.get("name", "foo")
     mine = sorted(f for f in recs[at]["before"] if belongs_to(f, name) and f.endswith(".ih5"))
     selection = sorted(recs[at - 1].get("files") or []) != mine
+    # (a handle opened by the record's name is the record, whatever files it found or made)
+    opened = [j for j in range(at) if ops[j][0] in ("open", "openperm") and recs[j]["out"] == "ok"]
+    if opened and ops[opened[-1]][0] == "open" and ops[opened[-1]][3] == "n" and ops[opened[-1]][4] == name:
+        selection = False
     for j in range(at + 1, len(ops)):
         op = ops[j]
         if op[0] not in ("open", "openperm"):
@@ -530,6 +666,10 @@ def impl(case):
     if kind == "mode":
         oracle += mode_oracle(case, recs)
         tags.append("mode:%s:%s:%s" % (case["cls"], case["sit"], case["mode"]))
+        if case.get("npatch", 1) >= 10 or case.get("name"):
+            tags.append("mode:%s:%s:%s%s" % (case["sit"], case["mode"], "patch-index>=10" if case.get("npatch", 1) >= 10 else "",
+                                             ":generated-name" if case.get("name") else ""))
+        tags += ["mode:" + t for t in name_tags(case.get("name", "foo"))]
     elif kind == "reopen":
         hits, judged = reopen_oracle(case, recs)
         oracle += hits
@@ -537,6 +677,11 @@ def impl(case):
             at = case["close_at"]
             n = len(recs[at - 1].get("files") or [])
             tags.append("reopen-%d-files" % min(n, 5))
+            if n >= 11:
+                tags.append("reopen-patch-index>=10")
+            if case.get("fam"):
+                tags.append("reopen-" + case["fam"])
+            tags += ["reopen-" + t for t in name_tags(case.get("name", "foo"))]
             if "rw=1" in recs[at - 1]["h"] and not case["ops"][at][1]:
                 tags.append("reopen-uncommitted")
             if any(o[0] == "merge" for o in case["ops"][:at]):
@@ -604,7 +749,35 @@ def gen_listing(rng):
     return sorted(x for x in out if x and "/" not in x and x not in (".", ".."))
 
 
+def gen_find_family(rng):
+    """the directory a family of generated record names leaves behind (base containers, patches with one- and
+    two-digit numbers, sidecars) plus near misses; queries: the names, their neighbours, invalid variants"""
+    fam = gen_family(rng)
+    names = [fam[k] for k in rng.sample(sorted(fam), rng.randrange(2, 6))]
+    if fam["foo"] not in names:
+        names.append(fam["foo"])
+    out = set()
+    for n in names:
+        k = rng.choice([0, 0, 1, 2, 3, 11, 12])
+        if rng.random() < 0.9:
+            out.add(n + ".ih5")
+        for i in range(1, k + 1):
+            if rng.random() < 0.9:
+                out.add("%s.p%d.ih5" % (n, i))
+        if rng.random() < 0.4:
+            out |= {f + "mf.json" for f in list(out) if f.startswith(n + ".")}
+        if rng.random() < 0.3:
+            out.add(n + rng.choice([".ih5.bak", ".h5", "", "_x.ih5", ".p.ih5", "..ih5", "ih5", ".IH5", ".tmp.ih5", ".p1", ".p1.ih", " .ih5", ".p01.ih5"]))
+    n = fam["foo"]
+    queries = list(dict.fromkeys(rng.sample(names, min(len(names), rng.randrange(1, 4))) + [n] + rng.sample(
+        [n[:-1], n + "2", n + ".ih5", n + ".p1", n + "_", n + "*", n[:-1] + "?", n + " ", n.lower(), n.upper(), n + "-", n[1:], ""], 3)))
+    infer = [rng.choice(names) + rng.choice([".ih5", ".p1.ih5", ".p3.ih5", ".p10.ih5", ".p12.ih5", ".ih5mf.json", ".p2.ih5mf.json", "", ".p", ".ih5.ih5"]) for _ in range(3)]
+    return dict(kind="find", listing=sorted(x for x in out if x and x not in (".", "..")), queries=queries, infer=infer, fam="names")
+
+
 def gen_find(rng):
+    if rng.random() < 0.5:
+        return gen_find_family(rng)
     listing = gen_listing(rng)
     qs = ["foo", "fo", "foo2", "foo-bar", "f", "foo-", "bar", "Foo", "foo_bar", "foo.ih5", "foo\n", "fo o", "foö", "foo*", "fo[o]", "9", "-"]
     queries = rng.sample(qs, rng.randrange(2, 7))
@@ -612,8 +785,9 @@ def gen_find(rng):
     return dict(kind="find", listing=listing, queries=queries, infer=infer)
 
 
-def gen_reopen(rng, n_ops):
-    """history on foo (opened by name), handle open at the end."""
+def gen_reopen(rng, n_ops, names=0.5):
+    """history on foo (opened by name), handle open at the end; `names`: share of the histories that run on
+    generated record names instead of foo / fo / foo2 / foo-bar."""
     while True:
         hist = c02.gen_history(rng, n_ops, with_others=rng.random() < 0.6, kinds=rng.random() < 0.75)
         # cut after the last op that leaves the handle open: find the last `open` by name and keep ops up to a point before the next close
@@ -646,7 +820,57 @@ def gen_reopen(rng, n_ops):
             ext = {k: "%s+%d" % (k, c02.gen_pad_len(rng, k)) for k in "pm"}
             ops = [[o[0], ext.get(o[1], o[1])] + list(o[2:]) if o[0] == "open" else o for o in ops]
             c = ext[c] if rng.random() < 0.8 else c
-        return reopen_case(rng, ops, c, name, rng.random() < 0.7, min(n, 6) if n > 4 else rng.choice([2, 3, 4]))
+        fam = None
+        if names and rng.random() < names:
+            # the same history on generated record names (full alphabet, adversarial beginnings / endings)
+            fam = gen_family(rng)
+            ops = rename_ops(ops, fam)
+            name = fam.get(name, name)
+        case = reopen_case(rng, ops, c, name, rng.random() < 0.7, min(n, 6) if n > 4 else rng.choice([2, 3, 4]))
+        if fam:
+            case["names"] = fam
+        return case
+
+
+def chain_ops(c, name, nfiles, wk="d", rng=None):
+    """a record of `nfiles` containers (tiny payloads), the newest one uncommitted, handle open"""
+    ops = [["open", c, "x", "n", name], ["write", 1]]
+    for k in range(2, nfiles + 1):
+        ops += [["commit"], ["create"], W(k, wk if rng is None or rng.random() < 0.5 else "d")]
+    return ops
+
+
+def gen_long_chain(rng, c, quick, what=None):
+    """records with patch indices >= 10 (file names <name>.p10.ih5 ...: two-digit patch numbers, not in
+    lexicographic order), on generated names half of the time; then (`what`) one of: close and reopen; replace the
+    record with `w`, write, close and reopen; `delete_files`, create again, write, close and reopen; a few more calls"""
+    fam = gen_family(rng) if rng.random() < 0.5 else {}
+    name = fam.get("foo", "foo")
+    n = rng.randrange(11, 13 if quick else 15)
+    kinds = "agn" if quick else "dagn"  # (a dump of many datasets spread over many containers is slow)
+    ops = []
+    if rng.random() < 0.5:
+        other = fam.get("foo2", "foo2")  # a prefix-related neighbour with a chain of its own
+        ops += chain_ops(c, other, rng.choice([2, 3] if quick else [2, 3, 11]), rng=rng) + [["close", 1]]
+    ops += chain_ops(c, name, n, wk=rng.choice(kinds), rng=rng if not quick else None)
+    what = what or rng.choice(["reopen", "reopen", "w", "w", "delete", "more"])
+    nf = n
+    if what == "w":
+        ops += [["close", rng.choice([0, 1])], ["open", c, "w", "n", name], W(100, rng.choice("dag"))]
+        nf = 1
+    elif what == "delete":
+        ops += [["close", 1], ["delete", name], ["open", c, rng.choice(["x", "a", "w-", "w"]), "n", name], W(100, rng.choice("dag"))]
+        nf = 1
+    elif what == "more":
+        ops += rng.choice([[["discard"]], [["commit"]], [["commit"], ["create"], W(200)], [["close", 1], ["open", c, "r+", "n", name], W(200)]])
+    if what in ("w", "delete") and rng.random() < 0.5:
+        ops += [["commit"], ["create"], W(101)]
+        nf = 2
+    case = reopen_case(rng, ops, c, name, rng.random() < 0.7, nf, perms=(1 if quick else 4) if nf > 4 else None)
+    case["fam"] = "long-" + what
+    if fam:
+        case["names"] = fam
+    return case
 
 
 def gen_cases(ctx):
@@ -662,20 +886,12 @@ def gen_cases(ctx):
         for mode in MODES:
             if ctx.quick and rng.random() < 0.6:
                 continue
-            cm = mode_case("m", "p", sit, mode)
             # the record itself written by the plain class, probed by the manifest class and vice versa
-            pre = others_setup("p") + situation_ops("p", sit)
-            cm["ops"] = pre + cm["ops"][cm["probe"]:]
-            cm["probe"] = len(pre)
-            cases.append(cm)
-            cp = mode_case("p", "m", sit, mode)
-            pre = others_setup("m") + situation_ops("m", sit)
-            cp["ops"] = pre + cp["ops"][cp["probe"]:]
-            cp["probe"] = len(pre)
-            cases.append(cp)
+            cases.append(mode_case("m", "p", sit, mode, wc="p"))
+            cases.append(mode_case("p", "m", sit, mode, wc="m"))
     ctx.exhaustive_spaces.append("open-mode table: 6 modes x 5 on-disk situations (absent, uncommitted base, committed base, patched, uncommitted patch) x IH5Record/IH5MFRecord, next to records fo, foo2, foo-bar")
     # (a) reopen after random histories
-    for _ in range(60 if ctx.quick else 1000):
+    for _ in range(54 if ctx.quick else 1000):
         cases.append(gen_reopen(rng, rng.randrange(4, 22)))
     # deterministic chains of 1..4 (5) files, every permutation, both classes, committed or not
     for c in "pm":
@@ -713,6 +929,35 @@ def gen_cases(ctx):
                 wk = rng.choice("agn")
                 cx = "%s+%d" % (c, c02.gen_pad_len(rng, c)) if rng.random() < 0.5 else c
                 cases.append(mode_case(cx, c, sit, mode, wk=wk))
+    # the mode table on generated record names (whole legal alphabet; beginnings / endings made of the characters of
+    # the file extension, the patch infix and patch numbers) next to prefix-related neighbours of those names;
+    # quick: every cell once (class at random), thorough: every cell x both classes x 3 names
+    for sit in SITS:
+        for mode in MODES:
+            for c in ([rng.choice("pm")] if ctx.quick else ["p", "m"] * 3):
+                fam = gen_family(rng)
+                others = [fam[k] for k in OTHERS]
+                if ctx.quick:
+                    others = rng.sample(others, 1)
+                cases.append(mode_case(c, c, sit, mode, wk=rng.choice("ddagn"), name=fam["foo"], others=others,
+                                       npatch=rng.choice([1, 1, 2, 3])))
+    # long histories: 10..12 committed patches (patch numbers with two digits) for the cells whose open discovers,
+    # continues, replaces or refuses the existing files, and records removed with `delete_files` (short and long);
+    # thorough: all of them x both classes; quick: every mode on the patched record, `w` + one more mode on the
+    # uncommitted patch, two modes after delete_files (payloads other than datasets: cheaper to dump)
+    cells = [(sit, mode) for sit in ("patched", "upatch", "deleted") for mode in MODES]
+    if ctx.quick:
+        cells = [("patched", m) for m in MODES] + [("upatch", "w"), ("upatch", rng.choice(["r", "r+", "a", "x"])),
+                                                   ("deleted", rng.choice(["x", "a", "w", "w-"])), ("deleted", rng.choice(["r", "r+", "a"]))]
+    for sit, mode in cells:
+        for c in ([rng.choice("pm")] if ctx.quick else ["p", "m"]):
+            fam = gen_family(rng) if rng.random() < 0.5 else {}
+            others = [fam.get(k, k) for k in (rng.sample(OTHERS, 1) if ctx.quick else OTHERS)]
+            npatch = rng.randrange(10, 12 if ctx.quick else 13) if sit != "deleted" or rng.random() < 0.6 else rng.choice([1, 2])
+            cases.append(mode_case(c, c, sit, mode, wk=rng.choice("agn" if ctx.quick else "ddagn"), name=fam.get("foo", "foo"), others=others, npatch=npatch))
+    for c in "pm":
+        for what in ([rng.choice(["w", "delete"]), rng.choice(["reopen", "more"])] if ctx.quick else [None] * 40):
+            cases.append(gen_long_chain(rng, c, ctx.quick, what))
     # (c) find_files / list_records
     for _ in range(150 if ctx.quick else 3000):
         cases.append(gen_find(rng))
@@ -723,7 +968,11 @@ def gen_cases(ctx):
 
 def run(ctx):
     ctx.rule = ("cases: (mode) exhaustive open-mode table with follow-up calls (read, create_patch, write, discard_patch, commit_patch, close, "
-                "reopen r) next to prefix-related records; (reopen) random histories, close(commit yes/no), then reopen by name and by "
+                "reopen r) next to prefix-related records, a second table on generated record names (whole legal alphabet, beginnings / "
+                "endings made of the characters of the file extension, patch infix and patch numbers) with generated prefix-related "
+                "neighbours, and cells on records with 10..12 patches (two-digit patch numbers) or removed with delete_files; the view after "
+                "the probe and after the final close + reopen by name is compared with the one before the close; (reopen, half of them on "
+                "generated names, plus chains of 11+ containers that are reopened / replaced with w / deleted and created again) (reopen) random histories, close(commit yes/no), then reopen by name and by "
                 "permuted explicit file lists in r/r+/a, each probe undone by discard+close; (find) find_files/list_records/"
                 "_is_valid_record_name/_infer_name on generated listings of prefix-related, non-canonical and odd names; (ub) IH5UserBlock.load on "
                 "blocks written by the real save (with ub_exts content of every length class up to the reserved 1024 bytes, over zeros or over an "
@@ -777,9 +1026,56 @@ def shrink(ctx, case, detail):
             return "ok" in r and any(d.get("kind") == want for d in r["ok"]["oracle"])
         h = core.ddmin(hist, fails, max_tests=60) if len(hist) > 1 else hist
         c = dict(case, ops=h + tail, close_at=len(h))
+        if c.get("names"):
+            # does the failure need the generated names? (the same history on foo / fo / foo2 / foo-bar)
+            back = {v: k for k, v in c["names"].items()}
+            c2 = dict(c, ops=rename_ops(c["ops"], back), name=back.get(c.get("name"), c.get("name")))
+            c2.pop("names")
+            r2 = pool.run_one(MOD, "impl", c2, timeout=120)
+            if "ok" in r2 and any(d.get("kind") == want for d in r2["ok"]["oracle"]):
+                c = c2
+        # fewer probes: the first one that shows it
+        at2 = c["close_at"]
+        probes = [c["ops"][j:j + 3] for j in range(at2 + 1, len(c["ops"]), 3)]
+        for pr in probes:
+            c2 = dict(c, ops=c["ops"][:at2 + 1] + pr)
+            r2 = pool.run_one(MOD, "impl", c2, timeout=120)
+            if "ok" in r2 and any(d.get("kind") == want for d in r2["ok"]["oracle"]):
+                c = c2
+                break
         r = pool.run_one(MOD, "impl", c, timeout=120)
         ds = [d for d in r.get("ok", {}).get("oracle", []) if d.get("kind") == want]
         return (c, ds[0]) if ds else (case, detail)
+    if case.get("kind") == "mode":
+        def hits_of(c):
+            r = pool.run_one(MOD, "impl", c, timeout=120)
+            return [d for d in r.get("ok", {}).get("oracle", []) if d.get("kind") == want] if "ok" in r else []
+        cur = case
+        if not hits_of(mode_rebuild(cur)):
+            return case, detail  # (a corpus / replay case that is not of the parametrised shape)
+        name = cur.get("name", "foo")
+        steps = [dict(others=[]), dict(c=cur["cls"][0], oc=cur["ocls"][0], wc=None), dict(wk="d"), dict(name="foo")]
+        steps += [dict(name=name[k:]) for k in range(len(name) - 1, 0, -1)] + [dict(name=name[:k]) for k in range(1, len(name))]
+        np_ = cur.get("npatch", 1)
+        steps += [dict(npatch=n) for n in sorted({1, 2, np_ // 2, np_ - 3, np_ - 2, np_ - 1}) if 1 <= n < np_]
+        tests = 0
+        for st in steps:
+            if tests >= 30:
+                break
+            if "name" in st and cur.get("name", "foo") != name:
+                continue  # one simplification of the name is enough
+            if "npatch" in st and cur.get("npatch", 1) != np_:
+                continue  # (ascending: the smallest chain that still shows it)
+            if "name" in st and not VALID_NAME.match(st["name"]):
+                continue
+            c2 = mode_rebuild(cur, **st)
+            if c2["ops"] == cur["ops"]:
+                continue
+            tests += 1
+            if hits_of(c2):
+                cur = c2
+        ds = hits_of(cur)
+        return (cur, ds[0]) if ds else (case, detail)
     return case, detail
 
 
